@@ -16,7 +16,7 @@ from mc.core import Abort, Outcome, bfs
 PROPERTY = "C46"
 LEVEL = "model_checking"
 RULE = (
-    "BFS over all histories of add(batch, additive) with batches of 1-3 coordinates "
+    "BFS over all histories of add(batch, additive) with batches of 1-3 coordinates (value dtype axis: float throughout, or integer first batch then fractional values) "
     "(all orderings, duplicates allowed; first operation also batches of 4) from a fixed coordinate alphabet, values fresh integers; one "
     "case = (dim, value_dim, first operation); non-trivial = a state in which some "
     "coordinate was written at least twice (across or inside batches) and the storage "
@@ -86,15 +86,24 @@ def cases(tier):
             if d_small:
                 for op in _ops_small(dim):
                     out.append({"dim": dim, "vdim": vdim, "first": [list(map(list, op[0])), op[1]], "depth": d_small, "alpha": "small"})
+            # value dtype axis: integer first batch, fractional values afterwards
+            for op in _ops_small(dim):
+                out.append({"dim": dim, "vdim": vdim, "first": [list(map(list, op[0])), op[1]],
+                            "depth": 2 if tier == "quick" else 3, "alpha": "small", "vmode": "intfirst"})
     return out
 
 
-def _values(t, batch, vdim):
+def _values(t, batch, vdim, vmode="float"):
     # fresh integers identifying (history position, batch position, component)
-    return np.array([[100.0 * (t + 1) + 10 * j + c + 1 for j in range(len(batch))] for c in range(vdim)])
+    v = np.array([[100.0 * (t + 1) + 10 * j + c + 1 for j in range(len(batch))] for c in range(vdim)])
+    if vmode == "intfirst":
+        # the first batch is handed over as an INTEGER array, later values have a fractional
+        # part (exact in binary): the storage must not inherit the dtype of the first values
+        return v.astype(np.int64) if t == 0 else v + 0.25
+    return v
 
 
-def _apply(hist, dim, vdim):
+def _apply(hist, dim, vdim, vmode="float"):
     from porepy.utils.array_operations import SparseNdArray
 
     arr = SparseNdArray(dim, value_dim=vdim)
@@ -102,7 +111,7 @@ def _apply(hist, dim, vdim):
     dup = False
     perm_ok = True
     for t, (batch, additive) in enumerate(hist):
-        vals = _values(t, batch, vdim)
+        vals = _values(t, batch, vdim, vmode)
         coords = [np.array(c) for c in batch]
         n_before = arr._coords.shape[1]
         newly = [c for c in dict.fromkeys(batch) if c not in ref]
@@ -134,7 +143,7 @@ def run_case(case) -> Outcome:
     def build(hist):
         h = (first,) + tuple(hist)
         try:
-            return _apply(h, dim, vdim) + (h,)
+            return _apply(h, dim, vdim, case.get("vmode", "float")) + (h,)
         except Exception as e:  # an exception from add on valid input is a violation
             return ("exc", repr(e), h)
 
@@ -157,7 +166,7 @@ def run_case(case) -> Outcome:
         arr, ref, dup, perm_ok, h = st
         stored = [tuple(int(x) for x in arr._coords[:, k]) for k in range(arr._coords.shape[1])]
         nontrivial = dup and (stored != sorted(stored) or len(h) > 1)
-        key = (dim, vdim, tuple(stored), arr._values.tobytes()) if nontrivial else None
+        key = (dim, vdim, case.get("vmode", "float"), tuple(stored), arr._values.tobytes()) if nontrivial else None
         bad = None
         for c in alpha:
             try:
@@ -187,7 +196,7 @@ def run_case(case) -> Outcome:
             bad = ("duplicate coordinate in storage", stored)
         if bad is None and not perm_ok:
             bad = ("returned permutation inconsistent with stored coordinates", stored)
-        cls = ("dup" if dup else "nodup") + ("/add" if h[-1][1] else "/ovw") + f"/n{len(ref)}"
+        cls = ("dup" if dup else "nodup") + ("/add" if h[-1][1] else "/ovw") + f"/n{len(ref)}" + ("/intfirst" if case.get("vmode") == "intfirst" else "")
         if bad is not None:
             o.violate(bad[0], detail=bad[1:], history=h, dim=dim, vdim=vdim)
             cls = "VIOLATION"
